@@ -77,7 +77,7 @@ def finish(prop, level, tier, seed, agg, rule, wall, floors=None, extra=None, as
         print(f"KNOWN-FINDING: property={prop} {ent['what']} [sig={ent['sig']}; seen {n}x this run]")
     replay_paths = []
     if unknown:
-        rdir = os.path.join(boot.HOME, "replays", prop)
+        rdir = os.path.join(os.environ.get("VERIF_REPLAY_DIR") or os.path.join(boot.HOME, "replays"), prop)
         os.makedirs(rdir, exist_ok=True)
         n = 0
         for sig, items in unknown.items():
@@ -125,7 +125,7 @@ def finish(prop, level, tier, seed, agg, rule, wall, floors=None, extra=None, as
         "wall_s": round(wall, 2),
         "violations": sum(len(v) for v in unknown.values()),
     }
-    edir = os.path.join(boot.HOME, "evidence")
+    edir = os.environ.get("VERIF_EVIDENCE_DIR") or os.path.join(boot.HOME, "evidence")
     os.makedirs(edir, exist_ok=True)
     tmp = os.path.join(edir, f".{prop}.json.tmp")
     with open(tmp, "w") as f:
